@@ -1186,7 +1186,8 @@ def unwrap_doc(rng, ds, de, cfg, unit, depth, tag_units, first_line, k_between=N
     lines.append(open_l)
     between = []
     if nb >= 1:
-        between.append(ind + rng.choice(["if (x) {", "{", "あ {"]))
+        # the opening wrapper line: a code line, sometimes a blank / whitespace-only line (C11's quantifier)
+        between.append(rng.choice(["", ind, ind + " "]) if rng.random() < 0.12 else ind + rng.choice(["if (x) {", "{", "あ {"]))
     inner = []
     for j in range(max(0, nb - 2)):
         if j == 0:
@@ -1214,7 +1215,7 @@ def unwrap_doc(rng, ds, de, cfg, unit, depth, tag_units, first_line, k_between=N
                 inner.append(ind + unit + "\t" + "w")
     between.extend(inner)
     if nb >= 2:
-        between.append(ind + "}")
+        between.append(rng.choice(["", ind]) if rng.random() < 0.12 else ind + "}")
     lines.extend(between)
     lines.append(close_l)
     post = [rng.choice(["b", unit + "b"])]
@@ -1387,7 +1388,15 @@ def gen_c18(rng, tier):
     cases.append(G.dcase("kf2b", "#{ ", " }#", render_abs(s_abs, "#{ ", " }#", "tl", "rm"), G.Cfg("tl", "rm", "+00:00", G.NOW, ("x",))))
     meta["kf2a"] = {"stream": "meta", "pair": "kf2b"}
     meta["kf2b"] = {"stream": "meta", "pair": "kf2a", "second": True, "spelling": ["#{ ", " }#", "tl", "rm"],
-                    "known_class": "KF2 end delimiter beginning with a blank: first on a line inside an unwrapped body it loses that blank to the block dedent"}
+                    "known_class": "KF2 delimiter beginning with a blank: first on a line inside an unwrapped body it loses that blank to the block dedent"}
+    # the same for a START delimiter that begins with a blank
+    s_abs2 = ('a\n\x01\x03 ' + G.EXPIRED + ' unwrap-block\x02\n{\n    x\n  \x01\x03 to="2100-01-01 00:00:00"\x02\n    y\n'
+              '  \x01/\x03\x02\n}\n\x01/\x03\x02\nb\n')
+    cases.append(G.dcase("kf2c", "\x01", "\x02", s_abs2, G.Cfg("\x03", "\x04", "+00:00", G.NOW, ("x",))))
+    cases.append(G.dcase("kf2d", " <", ">", render_abs(s_abs2, " <", ">", "tl", "rm"), G.Cfg("tl", "rm", "+00:00", G.NOW, ("x",))))
+    meta["kf2c"] = {"stream": "meta", "pair": "kf2d"}
+    meta["kf2d"] = {"stream": "meta", "pair": "kf2c", "second": True, "spelling": [" <", ">", "tl", "rm"],
+                    "known_class": "KF2 delimiter beginning with a blank: first on a line inside an unwrapped body it loses that blank to the block dedent"}
     return merge(corpus_cases(), (cases, meta))
 
 
